@@ -243,7 +243,7 @@ class Make:
         return True, list(self.dfile[df])
 
     def plan(self, g, files, targets, cf_dirty_ignores_discovered=False, cf_trust_after_failed_touch=False, assume_flip=(),
-             cf_dyndep_restat_late=False):
+             cf_dyndep_restat_late=False, cf_ignore_only=None):
         """-> dict(run=[keys in a valid order], error=None|str, why={key: reason}, order=[(a,b): a must finish before b])"""
         prod = producer_map(g)
         why = {}
@@ -300,7 +300,11 @@ class Make:
                     own_reason += ' (judged before its dyndep file added restat)'
             valid, disc = self.discovered(g, e, files)
             pre_dirty = dirty or own
-            use_disc = valid and not (cf_dirty_ignores_discovered and pre_dirty)
+            # cf_ignore_only: restrict the D1 counterfactual to these statements (each must still be dirty for a reason
+            # visible without its discovered inputs): which of the eligible statements really skipped its discovered
+            # inputs depends on what ninja knew when it first scanned them (dyndep files not loaded yet), which this
+            # model does not track
+            use_disc = valid and not (cf_dirty_ignores_discovered and pre_dirty and (cf_ignore_only is None or k in cf_ignore_only))
             disc = [d for d in disc if d not in ins_no]
             if valid and disc and not use_disc:
                 ignored.add(k)
